@@ -69,7 +69,7 @@ func outcome(g *proto.GenScript, pkg string, events []proto.Event) genOutcome {
 			case p.State == "inst-count":
 				o.Parts = append(o.Parts, proto.Part{Text: p.Text + fmt.Sprint(seen)})
 			default:
-				if p.Value != "" || p.Results || p.Bulk > 0 || p.Locate != "" || p.Names || p.FieldDocs || p.Octal {
+				if p.Value != "" || p.Results || p.Bulk > 0 || p.Locate != "" || p.Names {
 					o.HasValue = true // text the driver does not predict
 				}
 				o.Parts = append(o.Parts, p)
